@@ -120,12 +120,13 @@ func (o *oracleC09) monitor() func(task, op int, site uint32) string {
 			}
 		}
 		if g := decimal.VerifGlobalsDigest(); g != m.gbase {
-			if verifrt.LocksHeld() > 0 {
+			if verifrt.LocksHeld() > 0 || verifrt.LockEpoch != m.epoch {
 				m.gbase = g
 			} else {
 				return fmt.Sprintf("package-level state of the library was modified during op #%d (detected before %s)", op, siteStr(site))
 			}
 		}
+		m.epoch = verifrt.LockEpoch
 		return ""
 	}
 }
